@@ -58,6 +58,8 @@ ApplyF(ms, a) ==
     [] a.op = "GetRecord"  -> DoGetRecord(ms, a)
     [] a.op = "CompareAll" -> DoCompareAll(ms, a)
     [] a.op = "CopyRec"    -> DoCopyRec(ms, a)
+    [] a.op = "IO"         -> Ok(ms, NoQN)       \* the stream side is IO.tla
+    [] a.op = "Save"       -> Ok(ms, NoQN)       \* the file-system side is FS.tla
 
 (* Fold ApplyF over a sequence of actions *)
 RECURSIVE RunF(_, _, _)
